@@ -137,6 +137,8 @@ pub struct TestLifecycle {
     /// Addresses of the command targets (host, node, lane) for `Act::Send`.
     pub targets: Arc<Vec<(Option<String>, String, String)>>,
     pub commanders: Arc<Mutex<HashMap<u32, Commander<TestAgent>>>>,
+    /// The commanders of the first `eager` targets are created in `on_start` (the others when first used).
+    pub eager: u32,
 }
 
 fn key_of_m1(s: &str) -> i32 {
@@ -237,7 +239,22 @@ impl TestLifecycle {
     #[on_start]
     fn on_start(&self, context: HandlerContext<TestAgent>) -> impl EventHandler<TestAgent> {
         let rec = self.rec.clone();
-        context.effect(move || rec.lock().started = Some(ticket()))
+        let mut hs: Vec<BoxEventHandler<'_, TestAgent>> = vec![context.effect(move || rec.lock().started = Some(ticket())).boxed()];
+        for target in 0..self.eager.min(self.targets.len() as u32) {
+            let (host, node, lane) = self.targets[target as usize].clone();
+            let commanders = self.commanders.clone();
+            hs.push(
+                context
+                    .create_commander(host.as_deref(), node.as_str(), lane.as_str())
+                    .and_then(move |c: Commander<TestAgent>| {
+                        context.effect(move || {
+                            commanders.lock().insert(target, c);
+                        })
+                    })
+                    .boxed(),
+            );
+        }
+        Sequentially::new(hs)
     }
 
     #[on_stop]
